@@ -223,7 +223,7 @@ class Enc:
     n_chunks = concrete_int(chunks, 0, 3)
     me._encode_body_section = lambda d, df, b: ["\\trowd\\cellx9000\\pard C%%d\\cell\\intbl\\row\\pard" %% i for i in range(n_chunks)]
     me.figure_service = NS(_get_dimension=lambda d, i: 5.0, _encode_single_figure=lambda data, fmt, w, h, align: "{\\pict\\pngblip 0a0b}")
-    doc = make_doc(["c0"] if colours else [], [1] if colours else [], multi=(path == 1), figure=(path == 2))
+    doc = make_doc([NAMES[0]] if colours else [], [1] if colours else [], multi=(path == 1), figure=(path == 2))
     def mk(kv):
         return None if kv == 0 else NS(text=["x"] if kv == 1 else None, text_color=None, text_background_color=None)
     doc.rtf_page_header, doc.rtf_page_footer = mk(hdr), mk(ftr)
